@@ -17,7 +17,7 @@ require (
 	github.com/dgryski/go-farm v0.0.0-20190423205320-6a90982ecee2 // indirect
 	github.com/dustin/go-humanize v1.0.0 // indirect
 	github.com/gogo/protobuf v1.3.1 // indirect
-	github.com/golang/protobuf v1.3.5 // indirect
+	github.com/golang/protobuf v1.3.5
 	github.com/golang/snappy v0.0.1 // indirect
 	github.com/klauspost/cpuid v1.2.3 // indirect
 	github.com/pkg/errors v0.8.1 // indirect
